@@ -31,6 +31,8 @@ func RunPlain(r *vkit.Run, idx int, o Opts, nontrivial func(*Sim) bool) {
 // RunBubble runs a history inside a synctest bubble with the DB started: change iterators, graveyard collection
 // on virtual time, retained snapshots.
 func RunBubble(t *testing.T, r *vkit.Run, idx int, o Opts, nontrivial func(*Sim) bool) {
+	stop := r.Watchdog(idx, 5*time.Minute, nil)
+	defer stop()
 	synctest.Test(t, func(t *testing.T) {
 		s := NewSim(r, idx, o)
 		if o.OnSim != nil {
